@@ -236,6 +236,9 @@ type bprover struct {
 	depth    int
 	fmSteps  int
 	iv         map[ssa.Value]irange // interval pre-pass
+	inInduction int
+	inInvFacts  int
+	invCache    map[*ssa.BasicBlock][]bfact
 	minLen     map[ssa.Value]int64
 	trace      bool
 	br         *boundsRun
@@ -380,6 +383,9 @@ func (p *bprover) linOf1(v ssa.Value) blin {
 	self := blatom(atom{aVal, v})
 	if !isIntType(v.Type()) {
 		return self
+	}
+	if freshZero(v) {
+		return blconst(0)
 	}
 	if src, ok := phiSource(v); ok {
 		if srcDominates(src, v) {
@@ -714,6 +720,9 @@ func (p *bprover) lenOf1(v ssa.Value) blin {
 	p.noteFieldLen(v)
 	if n, ok := arrayLen(v.Type()); ok {
 		return blconst(n)
+	}
+	if freshZero(v) {
+		return blconst(0)
 	}
 	if src, ok := phiSource(v); ok {
 		if srcDominates(src, v) {
@@ -1241,6 +1250,9 @@ func (p *bprover) atomFacts1(a atom) []bfact {
 			}
 		}
 	}
+	if mv, ok := a.v.(*memVal); ok && (a.k == aVal || a.k == aLen) {
+		res = append(res, p.parserPostFacts(mv)...)
+	}
 	if ph, ok := a.v.(*ssa.Phi); ok && isLoopPhi(ph) {
 		for _, f := range p.partnerFacts(a, ph) {
 			res = append(res, f)
@@ -1253,6 +1265,15 @@ func (p *bprover) atomFacts1(a atom) []bfact {
 		return res
 	}
 	switch x := a.v.(type) {
+	case *ssa.Extract:
+		// io.Reader contract: n, err := r.Read(buf)  gives  0 <= n <= len(buf)
+		if call, ok := x.Tuple.(*ssa.Call); ok && x.Index == 0 && call.Call.IsInvoke() && call.Call.Method.Name() == "Read" && len(call.Call.Args) == 1 {
+			if bIsByteSlice(call.Call.Args[0].Type().Underlying()) && isIntType(x.Type()) {
+				add(me, true, "io.Reader contract")
+				e, ok := p.lenOf(call.Call.Args[0]).sub(me)
+				add(e, ok, "io.Reader contract")
+			}
+		}
 	case *ssa.Phi:
 		if !is64(x.Type()) || !isIntType(x.Type()) {
 			break
@@ -1656,6 +1677,18 @@ func (p *bprover) factsAt(b *ssa.BasicBlock) []bfact {
 		p.condFacts(g.cond, g.then, &out)
 	}
 	p.gcache[b] = out
+	// invariants of tracked objects at the joins that dominate b, proven once per join
+	if isParserMethod(p.fn) && p.inInvFacts == 0 {
+		p.inInvFacts++
+		for d := b; d != nil; d = d.Idom() {
+			if len(d.Preds) < 2 {
+				continue
+			}
+			out = append(out, p.parserInvAtJoin(d)...)
+		}
+		p.inInvFacts--
+		p.gcache[b] = out
+	}
 	return out
 }
 
@@ -1871,6 +1904,13 @@ func (p *bprover) prove(facts []bfact, goal blin, at *ssa.BasicBlock, splits int
 	if len(joins) > 3 {
 		joins = joins[:3]
 	}
+	// induction over a loop head: a goal that mentions only loop-carried
+	// values of one loop head (SSA phis, memory merges) and loop-invariant
+	// values is an invariant if it holds on every entering edge and is
+	// preserved along every back edge (with itself as hypothesis there)
+	if p.proveByLoopInduction(facts, goal, at, splits) {
+		return true
+	}
 	for _, d := range joins {
 		if p.trace {
 			fmt.Printf("%s split at join b%d\n", strings.Repeat("  ", 4-splits), d.Index)
@@ -1941,7 +1981,16 @@ func (p *bprover) prove(facts []bfact, goal blin, at *ssa.BasicBlock, splits int
 				}
 			}
 			g2, ok := substAll(goal)
-			if !ok || !p.prove(nf, g2, pred, splits-1) {
+			next := pred
+			if isLoopHead(d) {
+				// loop-carried values of d may remain in the goal: stay at the head so that induction applies
+				for a := range g2.t {
+					if pb, edges, isPhi := phiLike(a.v); isPhi && pb == d && isLoopMerge(pb, edges, a.v) {
+						next = d
+					}
+				}
+			}
+			if !ok || !p.prove(nf, g2, next, splits-1) {
 				all = false
 				break
 			}
@@ -2787,6 +2836,151 @@ func srcDominates(src, v ssa.Value) bool {
 		return dominatesValue(x.blk, v)
 	case ssa.Instruction:
 		return x.Block() == nil || dominatesValue(x.Block(), v)
+	}
+	return true
+}
+
+
+// freshZero: the contents of a field of an object allocated in this function
+// that has not been written since (version "entry"): the zero value.
+func freshZero(v ssa.Value) bool {
+	mv, ok := v.(*memVal)
+	if !ok || mv.blk != nil || !strings.HasSuffix(mv.key, "#entry") {
+		return false
+	}
+	if !strings.HasPrefix(mv.key, "F:") {
+		return false
+	}
+	al, ok := mv.base.(*ssa.Alloc)
+	return ok && al.Heap && freshRoot(al) == al
+}
+
+
+func (p *bprover) proveByLoopInduction(ctxFacts []bfact, goal blin, at *ssa.BasicBlock, splits int) bool {
+	if splits <= 0 || at == nil || p.inInduction > 1 {
+		return false
+	}
+	// the loop head: block of the phi-like atoms of the goal
+	var head *ssa.BasicBlock
+	var atoms []atom
+	for _, a := range p.sortedAtoms(func() map[atom]bool {
+		m := map[atom]bool{}
+		for a := range goal.t {
+			m[a] = true
+		}
+		return m
+	}()) {
+		pb, edges, ok := phiLike(a.v)
+		if !ok || !isLoopMerge(pb, edges, a.v) {
+			continue
+		}
+		if head != nil && head != pb {
+			return false
+		}
+		head = pb
+		atoms = append(atoms, a)
+	}
+	if head == nil || !(head == at || head.Dominates(at)) {
+		return false
+	}
+	// the other atoms must not change while the loop runs
+	body := map[*ssa.BasicBlock]bool{}
+	for _, l := range naturalLoops(p.fn) {
+		if l.head == head {
+			body = l.body
+		}
+	}
+	for a := range goal.t {
+		isAtom := false
+		for _, b := range atoms {
+			if a == b {
+				isAtom = true
+			}
+		}
+		if isAtom {
+			continue
+		}
+		switch v := a.v.(type) {
+		case ssa.Instruction:
+			if v.Block() != nil && body[v.Block()] {
+				return false
+			}
+		case *memVal:
+			if v.blk != nil && body[v.blk] {
+				return false
+			}
+			for _, sb := range v.sites {
+				if body[sb] {
+					return false
+				}
+			}
+		}
+	}
+	// facts of the context that only speak about values the loop does not change hold at all times
+	invariantAtom := func(a atom) bool {
+		switch v := a.v.(type) {
+		case *ssa.Phi:
+			if v.Block() != nil && body[v.Block()] {
+				return false
+			}
+		case ssa.Instruction:
+			if v.Block() != nil && body[v.Block()] {
+				return false
+			}
+		case *memVal:
+			if v.blk != nil && body[v.blk] {
+				return false
+			}
+			for _, sb := range v.sites {
+				if body[sb] {
+					return false
+				}
+			}
+		}
+		return true
+	}
+	var timeless []bfact
+	for _, f := range ctxFacts {
+		ok := true
+		for a := range f.e.t {
+			if !invariantAtom(a) {
+				ok = false
+			}
+		}
+		if ok {
+			timeless = append(timeless, f)
+		}
+	}
+	p.inInduction++
+	defer func() { p.inInduction-- }()
+	for pi, pred := range head.Preds {
+		g2 := goal
+		ok := true
+		for _, a := range atoms {
+			_, edges, _ := phiLike(a.v)
+			var by blin
+			switch a.k {
+			case aLen:
+				by = p.lenOf(edges[pi])
+			case aVal:
+				by = p.linOf(edges[pi])
+			case aNonNil:
+				by = p.nonNilOf(edges[pi])
+			default:
+				return false
+			}
+			g2, ok = g2.subst(a, by)
+			if !ok {
+				return false
+			}
+		}
+		facts := append(p.edgeFacts(pred, head), timeless...)
+		if head.Dominates(pred) {
+			facts = append(facts, bfact{e: goal, why: "induction hypothesis"})
+		}
+		if !p.prove(facts, g2, pred, splits-1) {
+			return false
+		}
 	}
 	return true
 }
